@@ -289,6 +289,7 @@ def check_C14(rep, prog, tier):
         [('F', [1]), ('FF', [1, 2]), ('FF', [1, 1]), ('FSF', [1, 0, 2]), ('FFF', [1, 2, 3])]
     cases = _bcases(shapes, ['none'], prior='same', expect_no_block_writes=True)
     cases += _bcases([('FF', [1, 2])] if tier == 'quick' else [('FF', [1, 2]), ('FF', [1, 1])], ['crash'])
+    cases += _bcases([('F', [1])] if tier == 'quick' else [('FF', [1, 2])], ['crash', 'empty_crash', 'fault'], prior='same')
     rep.bounds = {'cases': [BC.case_name(c) for c in cases]}
     rep.assumptions += BC.COMMON_ASSUMPTIONS
     BC.run_cases(rep, prog, cases, dl, 'C14', 'unchanged tree: no block written and identical addresses; no stored block is ever written again, also when resuming after a crash')
@@ -300,6 +301,7 @@ def check_C07(rep, prog, tier):
     shapes = [('FF', [1, 2])] if tier == 'quick' else [('FF', [1, 2]), ('FF', [1, 1]), ('FSF', [1, 0, 2])]
     cases = _bcases(shapes, ['none', 'crash'] if tier == 'quick' else ['none', 'crash', 'empty_crash', 'fault'], prior='same')
     cases += _bcases([('F', [1])], ['none', 'crash'], prior='built', prior_kinds='FF', prior_classes=[2, 3])
+    cases += _bcases([('F', [1])], ['fault'], prior='same')
     rep.bounds = {'cases': [BC.case_name(c) for c in cases]}
     rep.assumptions += BC.COMMON_ASSUMPTIONS + ['two racing backups are not explored here']
     BC.run_cases(rep, prog, cases, dl, 'C07', 'a backup (complete, interrupted, faulted or resumed) only adds files; the new band id is above every existing one')
@@ -333,7 +335,7 @@ def band_ids(rep, prog):
     paths = 0
     inc = []
     for n in (0, 1, 2, 3):
-        for ids in itertools.combinations([0, 1, 3, 7, 12], n):
+        for ids in itertools.combinations([0, 3, 12, 9999, 10000, 100000], n):
             for states in itertools.product(['nohead', 'open', 'closed'], repeat=n):
                 present = list(zip(ids, states))
                 E = Explorer(prog, Stats())
@@ -362,7 +364,7 @@ def band_ids(rep, prog):
         rep.violation('band-create:id-not-above-existing', bad[0], '', True)
         rep.add_obligation('new band id above every existing id', 'violated', {'paths': paths}, bad[:3])
     else:
-        rep.add_obligation('new band id above every existing id (all subsets of 5 ids x {headless, open, closed})', 'holds', {'paths': paths})
+        rep.add_obligation('new band id above every existing id (all subsets of up to 3 of the ids 0,3,12,9999,10000,100000 x {headless, open, closed})', 'holds', {'paths': paths})
 
 
 def check_C18(rep, prog, tier):
